@@ -28,7 +28,9 @@ RULE = ("integer tensors (Tucker-structured low rank with integer core/factors, 
         "r < size-1 and dense path), flipsign on/off; holder variants: arrays held C-contiguous or as non-contiguous views, data scaled by "
         "2^(+-24) (Kruskal: in the weights or in one factor), dense tensors held in float32/int64/int32/int16/int8/uint8/uint16 with "
         "magnitudes whose slice inner products overflow that dtype, Tucker tensors (dense and sparse core) whose factor matrices are "
-        "scipy coo matrices (all / some; the requested mode's factor sparse and dense), Tucker/Kruskal factors with unit-norm columns (signed unit vectors: "
+        "scipy coo matrices (all / some; the requested mode's factor sparse and dense), sparse tensors whose vals are "
+        "int64/int32/int16/uint8/int8/float32 (both solver paths; finding C14-F4), Tucker tensors whose core and factors are "
+        "int64/int32/float32/uint8/int8/int16 (narrow ones with overflowing intermediate products; finding C14-F5), Tucker/Kruskal factors with unit-norm columns (signed unit vectors: "
         "orthonormal, or repeated = not orthogonal; generic directions normalised on the 2^-30 grid); sequences of nvecs calls over all modes "
         "on ONE object with another operation between the calls (normalize / normalize(weight_factor=k|'all') / normalize(sort) / arrange / "
         "fixsigns / redistribute / full / norm / innerprod / ttv / to_tenmat / collapse), sparse sequences checked at the Gram matrix; "
@@ -56,6 +58,10 @@ CORRESPONDENCE_ONLY = ["scipy.sparse products (COO x COO in sptensor.nvecs, COO 
                        "model impl_ttm_sp (theorem C02_ttm_sparse; tied to the code by C02's correspondence and here by the recorded H of "
                        "every exact sparse-core sample); the sptensor constructor calls inside the two reshape calls are taken to keep the rows "
                        "as given (recorded spmatrix() output = model tnt on every exact sparse sample)",
+                       "ttensor.nvecs with scipy coo FACTOR matrices (branches sparse.issparse(factor n) / issparse(XnT) / issparse(Y)): compared "
+                       "through the Tucker denotation and the through-the-core model gram_t_code only (no transliteration of those branches)",
+                       "element-type conversions (double() / astype): modelled as an entry map dbl : B -> V with dbl 0 = 0 (C14_gram_dense_held, "
+                       "C14_gram_sparse_held, C14_gram_tucker_held); float64 rounding itself is outside the ring-generic theorems",
                        "eigen solvers eigh/eigsh/eig/eigs: certificate-checked oracles"]
 ASSUMPTIONS = ["floats converted exactly (solver input/output) or on the 2^-40 grid (returned vectors) to rationals; recorded solver input of "
                "scaled data divided exactly by 4^exponent in the harness",
@@ -76,6 +82,8 @@ EXPLANATION = ("C14_gram_dense / _sparse / _kruskal / _tucker: the Gram matrix t
                "only-singleton shapes are refused; C14_sparse_post_dense_sorted / _iter_sorted / _iter_one, C14_argsort_sorted_id: the code's own "
                "post-processing on the sparse path (row permutation / no sort: finding A-38) is the postprocess of the other representations "
                "when the solver output has |w| non-increasing; "
+               "C14_gram_sparse_held / C14_gram_tucker_held: the behaviour the property demands of sparse / Tucker holders of another element type "
+               "(conversion before the product; open findings C14-F4 / C14-F5); "
                "C14_cp_as_tucker_den / C14_cp_tucker_same_gram: a CP model in Tucker form (superdiagonal core) denotes the Kruskal tensor, so the "
                "Tucker and the Kruskal code hand the same matrix to the solver; C14_captured_is_energy / C14_energy_of_eigenvectors / "
                "C14_max_energy / C14_kyfan_weights: eigenvectors of the r largest eigenvalues capture the maximal energy of the unfolding "
@@ -104,7 +112,7 @@ def _full_tucker(shape, cshape, core, Us):
     return out
 
 
-def _bundle_tucker(rng, shape, fkinds=None):
+def _bundle_tucker(rng, shape, fkinds=None, mag=None):
     """fkinds[n] in generic | unit (signed unit vectors, repeated: unit norm, not orthogonal) | ortho (distinct signed unit vectors) |
     gridnorm (generic directions, norm 1 up to 2^-29, integers to be scaled by 2^-30: key fexp)"""
     d = len(shape)
@@ -112,7 +120,7 @@ def _bundle_tucker(rng, shape, fkinds=None):
     if fkinds:
         cshape = [min(shape[n], 2) if fkinds[n] != "generic" else cshape[n] for n in range(d)]
     while True:
-        core = tgen.rand_dense(rng, cshape, rng.choice([0.6, 1.0]), -2, 3)
+        core = tgen.rand_dense(rng, cshape, rng.choice([0.6, 1.0]), *(mag or (-2, 3)))
         if any(core):
             break
     Us = []
@@ -125,7 +133,7 @@ def _bundle_tucker(rng, shape, fkinds=None):
         elif k == "gridnorm":
             Us.append(cu.gridnorm_factor(rng, shape[n], cshape[n]))
         else:
-            Us.append([[rng.randint(-2, 2) for _ in range(cshape[n])] for _ in range(shape[n])])
+            Us.append([[rng.randint(*(mag or (-2, 2))) for _ in range(cshape[n])] for _ in range(shape[n])])
     data = _full_tucker(shape, cshape, core, Us)
     weights, cols = [], [[] for _ in range(d)]
     for j, g in zip(tgen.all_subs(cshape), core):
@@ -392,6 +400,10 @@ def _gen_all_singleton(rng, big):
 
 
 DTYPES = (("bool", 0, 1), ("float32", -3, 4), ("int64", -3, 4), ("int32", -80000, 80000), ("int16", -400, 400), ("int8", -50, 50), ("uint8", 0, 255), ("uint16", 0, 60000))
+# element type of a sparse tensor's vals (finding C14-F4) / of a Tucker tensor's core and factors (finding C14-F5), with magnitudes
+VDTYPES = (("int64", -3, 4), ("int32", -80000, 80000), ("int16", -400, 400), ("uint8", 0, 255), ("int8", -50, 50), ("float32", -3, 4))
+HDTYPES = (("int64", -2, 3), ("int32", -2, 3), ("float32", -2, 3), ("uint8", 0, 12), ("int8", -9, 9), ("int16", -60, 60))
+NARROW = ("int8", "uint8", "int16")
 SHAPES_VQ = [(4, 3, 2), (3, 1, 2), (5, 2), (2, 2, 3, 2)]
 SHAPES_VT = SHAPES_VQ + [(1, 3, 2), (3, 4), (2, 5, 2), (4, 1, 1), (3, 3, 3), (6, 2, 2)]
 
@@ -401,6 +413,18 @@ def _pick_nr(rng, shp, cap=None):
     top = shp[n] if cap is None else max(1, min(shp[n], cap[n]))
     r = rng.choice([1, top, rng.randint(1, top)])
     return n, r
+
+
+def _both_paths(rng, shp):
+    """(n, r) pairs: one on the iterative path (r < I_n - 1) where the shape has a mode of size >= 3, one on the dense-solver path"""
+    out = []
+    its = [n for n in range(len(shp)) if shp[n] >= 3]
+    if its:
+        n = rng.choice(its)
+        out.append((n, rng.randint(1, shp[n] - 2)))
+    n = rng.randrange(len(shp))
+    out.append((n, rng.choice([shp[n], max(1, shp[n] - 1)])))
+    return out
 
 
 def _emit(cases, b, rp, n, r, flip, shp):
@@ -448,6 +472,26 @@ def _gen_variants(rng, big):
             for _ in range(2 if big else 1):
                 n, r = _pick_nr(rng, shp)
                 _emit(cases, dict(b, dtype=dt), "dense", n, r, rng.random() < 0.8, shp)
+        # element type of a sparse tensor's value array (the constructor keeps integer / float32 arrays): both solver paths
+        for dt, lo, hi in VDTYPES:
+            b = _bundle_dense(rng, shp, lo, hi)
+            b["order"], b["sseed"] = rng.choice(["sorted", "reversed", "random"]), rng.randrange(10 ** 6)
+            for n, r in _both_paths(rng, shp):
+                _emit(cases, dict(b, vdtype=dt), "sparse", n, r, rng.random() < 0.8, shp)
+        # element type of a Tucker tensor's core and factor matrices (the constructor keeps them): narrow integer holders are
+        # generated with magnitudes at which an intermediate product leaves the type's range
+        for dt, lo, hi in HDTYPES:
+            for rp in ("ttensor", "ttensor_sp"):
+                for n, r in _both_paths(rng, shp)[:2 if big else 1]:
+                    for _ in range(30):
+                        b = _bundle_tucker(rng, shp, None, (lo, hi))
+                        r_ = min(r, shp[n])
+                        if dt not in NARROW or cu.tucker_wraps(dict(b, n=n, hdtype=dt)):
+                            break
+                    else:
+                        continue
+                    b["order"], b["sseed"] = rng.choice(["sorted", "reversed", "random"]), rng.randrange(10 ** 6)
+                    _emit(cases, dict(b, hdtype=dt), rp, n, r_, rng.random() < 0.8, shp)
         # factor matrices held as scipy.sparse.coo_matrix (admitted by the ttensor constructor; ttensor.nvecs has its own branches for a
         # sparse factor n, a sparse XnT and a sparse Y): dense core and sparse core, all / some factors sparse
         for rp in ("ttensor_cf", "ttensor_spcf"):
@@ -1008,7 +1052,33 @@ def _a38(c):
     return [int(k) for k in (-np.abs(w)).argsort()] != list(range(I))
 
 
-TRIGGERS = {"sparse_nvecs": _a38}
+# C14-F4 (sptensor.nvecs forms y = tnt^T tnt in the dtype of vals): integer vals of ANY width on the iterative path — ARPACK's eigs rejects
+#   an integer matrix: ValueError, every facet; 8/16-bit integers on the dense-solver path — the products wrap (sp_gram when they do) and
+#   scipy.linalg.eig runs in single precision; int32 — only when an entry of the exact Gram matrix leaves the int32 range; float32 —
+#   single precision on both paths.  int64 on the dense-solver path is right (compared unattributed).
+def _f4(c):
+    a = c.args
+    vd = a.get("vdtype")
+    if not vd or vd == "float64" or not c.op.startswith("sp_") or a.get("repr", "sparse") != "sparse":
+        return False
+    I, r = a["shape"][a["n"]], a["r"]
+    if vd != "float32" and r < I - 1:
+        return True
+    if vd in NARROW or vd == "float32":
+        return True
+    if vd == "int32":
+        return any(abs(x) >= 2 ** 31 for row in _py_gram(a) for x in row)
+    return False
+
+
+# C14-F5 (ttensor.nvecs multiplies core and factors in their own dtype): 8/16-bit integer holders whose intermediate products
+#   (U_m^T U_m, core x_m V_m, U_n G_(n), Y) leave the type's range — decided on the request in exact integers (cu.tucker_wraps)
+def _f5(c):
+    a = c.args
+    return c.op == "nvecs" and a.get("hdtype") in NARROW and a.get("repr") in ("ttensor", "ttensor_sp") and cu.tucker_wraps(a)
+
+
+TRIGGERS = {"sparse_nvecs": _a38, "sparse_vals_dtype": _f4, "tucker_holder_dtype": _f5}
 
 
 def _wit_a38():
@@ -1029,4 +1099,32 @@ def _wit_a38():
     return "; ".join(msgs) or None
 
 
-WITNESSES = {"A-38": _wit_a38}
+def _wit_f4():
+    import numpy as np
+    import pyttb as ttb
+    S = ttb.sptensor(np.array([[0, 0], [1, 1], [2, 0], [3, 2]]), np.array([[3], [1], [2], [1]]), (4, 3))
+    try:
+        v = np.real(np.asarray(S.nvecs(0, 1)))
+    except Exception as ex:
+        return f"sptensor.nvecs(0,1) on a 4x3 tensor with integer vals raises {type(ex).__name__}: {str(ex)[:60]}"
+    vd = ttb.tensor(S.full().data.astype(float)).nvecs(0, 1)
+    dP = float(np.max(np.abs(v @ v.T - vd @ vd.T)))
+    return None if dP < 1e-9 else f"sptensor.nvecs(0,1) with integer vals: projector differs from the dense tensor's by {dP:.3g}"
+
+
+def _wit_f5():
+    import numpy as np
+    import pyttb as ttb
+    core = np.array([5, 0, 7, 11, 3, 9, 0, 12]).reshape((2, 2, 2), order="F")
+    Us = [np.array([[1, 12], [9, 4], [0, 7], [11, 2]]), np.array([[3, 8], [10, 1], [6, 6]]), np.array([[2, 9], [12, 5]])]
+    T8 = ttb.ttensor(ttb.tensor(core.astype(np.uint8)), [u.astype(np.uint8) for u in Us])
+    Tf = ttb.ttensor(ttb.tensor(core.astype(float)), [u.astype(float) for u in Us])
+    try:
+        v, vd = T8.nvecs(0, 2), Tf.nvecs(0, 2)
+    except Exception as ex:
+        return f"ttensor.nvecs with uint8 holders raises {type(ex).__name__}"
+    dP = float(np.max(np.abs(v @ v.T - vd @ vd.T)))
+    return None if dP < 1e-9 else f"ttensor.nvecs(0,2) with uint8 core/factors: projector differs from the float64 holders' by {dP:.3g}"
+
+
+WITNESSES = {"A-38": _wit_a38, "C14-F4": _wit_f4, "C14-F5": _wit_f5}
